@@ -8,13 +8,17 @@ from props import common as K
 
 META = {
     "level": "other",
+    "technique": "static analysis of type-checked MIR (rustc_private driver): who-may-construct enumeration, contradiction rule on merge loops, guard dominance, decision of comparison-only predicates on every weak ordering, bound-kind comparison discipline",
     "explanation": "Canonical-form discipline: the invariant-establishing unsafe constructor is called only from the reviewed "
                    "sites and the chain types' fields are private; every block stored by a chain-producing function is "
                    "re-created through Block::new (canonical form) or copied from an existing chain; every normalisation "
                    "loop that merges on adjacency also handles overlap (contradiction rule); every range built from decoded "
                    "or parsed input is dominated by a lower ≤ upper guard; issuance and resource-limit results pair like "
                    "families and return the claim only behind the containment test; end-of-number-space arithmetic uses "
-                   "checked operations.",
+                   "checked operations; the four order predicates of Block (contains, intersects, is_encompassed, is_equivalent) "
+                   "are decided on every weak ordering of the bounds and equal the interval definitions; a merge replaces a "
+                   "stored block only by one with a larger upper bound; an upper and a lower bound are only ever compared as "
+                   "`upper < lower` / `lower <= upper` (inclusive ranges).",
     "not_decided": ["exactness of trim / difference / is_encompassed / eq / contains_item as set operations (loop invariants "
                     "over runtime sequences)", "range-to-prefix decomposition", "text / serde round-trip equality"],
     "trusted_base": ["std sort_unstable_by_key", "Block::new implementations produce the canonical form of (min, max)"],
